@@ -181,7 +181,7 @@ def gen_case(idx: int, seed: int, tier: str) -> Any:
             continue
         leaf = rng.choice(["a", "b", "nested.a", "nested.deep.x", "asphalt\\.core", "nested.asphalt\\.core", "newkey"])
         key = f"{base}.{leaf}" if base else rng.choice(["max_threads", "start_timeout", "opts.x", "opts.asphalt\\.core.level"] if not tier_b else ["max_threads", "start_timeout"])
-        val = rng.choice(["5", "[1, 2]", "{k: 1}", "", "true", "plain", "'quoted: text'", "3.5", "a=b"])
+        val = rng.choice(["5", "[1, 2]", "{k: 1}", "", "true", "plain", "'quoted: text'", "3.5", "a=b", "@TAG:Env", "@TAG:TextFile", "@TAG:BinaryFile"])
         if key in ("max_threads", "start_timeout"):
             val = rng.choice(["4", "6"])
         sets.append(["kv", key, val])
@@ -257,9 +257,22 @@ def materialize(case: dict[str, Any]) -> tuple[list[str], list[dict[str, Any]], 
     return paths, docs, env
 
 
+def tagged_override(value: str) -> tuple[str, Any] | None:
+    """an override whose value carries one of the tags: (text on the command line, value the tag stands for)"""
+    if not value.startswith("@TAG:"):
+        return None
+    wd = workdir()
+    return {"Env": ("!Env VERIF_E1", "value from the environment"),
+            "TextFile": ("!TextFile " + os.path.join(wd, "text file.txt"), "text from a file\nsecond line\n"),
+            "BinaryFile": ("!BinaryFile " + os.path.join(wd, "blob.bin"), b"\x00\x01binary\xff")}[value[5:]]
+
+
 def argv_for(case: dict[str, Any], paths: list[str]) -> list[str]:
     args = ["run", *paths]
     for s in case["sets"]:
+        if s[0] != "noeq" and tagged_override(s[2]) is not None:
+            args += ["--set", f"{s[1]}={tagged_override(s[2])[0]}"]
+            continue
         args += ["--set", s[1] if s[0] == "noeq" else f"{s[1]}={s[2]}"]
     if case["service"]:
         args += ["-s" if case["short_flag"] else "--service", case["service"]]
@@ -273,6 +286,8 @@ def model_for(case: dict[str, Any], docs: list[dict[str, Any]]) -> Any:
     for s in case["sets"]:
         if s[0] == "noeq":
             sets.append((s[1], ("NOEQ",)))
+        elif tagged_override(s[2]) is not None:
+            sets.append((s[1], tagged_override(s[2])[1]))
         else:
             sets.append((s[1], yaml.safe_load(s[2])))
     try:
